@@ -206,6 +206,14 @@ Theorem C17_listing_getters_translated : forall s p v, analysis_path p = Ok v ->
              /\ get_string_def s p d = Ok (match lookup s (key_of_vec v) with Some i => ivalue i | None => d end)).
 Proof. exact ConfXlate.tr_listing_getters_equiv. Qed.
 
+(* a Go map iterates in an unspecified order: in whatever order the children of the element are visited, GetDomain and
+   GetDomainKey return the same names up to order (the correspondence compares them as sets) *)
+Theorem C17_listing_order_independent : forall p v nd nd', analysis_path p = Ok v ->
+  Permutation.Permutation (map snd (ge_children nd)) (map snd (ge_children nd')) ->
+  exists l l' k k', tr_getDomain p nd false = Some (l, false) /\ tr_getDomain p nd' false = Some (l', false) /\ Permutation.Permutation l l' /\
+                    tr_getDomainKey p nd false = Some (k, false) /\ tr_getDomainKey p nd' false = Some (k', false) /\ Permutation.Permutation k k'.
+Proof. exact ConfXlate.listing_order_independent. Qed.
+
 (* elem.getElem walks the tree from the root child by child (translated; elements are abstract handles, findChild a
    parameter); the model looks the whole path up in its flat store. On every store the parser produces the two agree,
    because such a store holds all ancestors of each of its elements: *)
@@ -260,6 +268,7 @@ Print Assumptions C17_analysis_path_translated.
 Print Assumptions C17_getters_translated.
 Print Assumptions C17_elem_methods_translated.
 Print Assumptions C17_listing_getters_translated.
+Print Assumptions C17_listing_order_independent.
 Print Assumptions C17_store_closed.
 Print Assumptions C17_getElem_translated.
 Print Assumptions C17_no_panic_parse.
